@@ -222,6 +222,13 @@ theorem add_records_lock (s : St) (amount unlock now : Int) (hu : unlock ≠ 0) 
     | cons x xs ih => simp [lockedAt, ih]; omega
   simp [add, hu, happ, lockedAt, hn]
 
+/-- two locked commits with the same unlock time (the same account joining the same oracle pool twice in one block) are BOTH under the
+lock: whether the ledger keeps two entries or one, the amount locked is the sum (the clause `C12.lock_recorded` of the history check;
+seeded change C12-5 merged the second entry into a copy of the first and lost it) -/
+theorem add_twice_records_both (s : St) (a b unlock now : Int) (hu : unlock ≠ 0) (hn : unlock > now) :
+    lockedAt (add (add s a unlock) b unlock).locks now = lockedAt s.locks now + a + b := by
+  rw [add_records_lock _ b unlock now hu hn, add_records_lock s a unlock now hu hn]
+
 /-- the liquidation flag is the only way past an unexpired lock: with everything else equal, a deduction the owner is refused
 succeeds when it is flagged as a liquidation — and drops every lock-up entry. So every caller that sets the flag must be a
 liquidation (WITNESS of the shape of seeded change C12-3, where an owner's close of an unhealthy position set it). -/
